@@ -22,9 +22,11 @@ fn with_prop(id: &str, f: &mut dyn FnMut(&dyn Runner) -> i32) -> i32 {
         "C06" => f(&props::c06::prop06()),
         "C07" => f(&props::c06::prop07()),
         "C08" => f(&props::c08::prop()),
+        "C09" => f(&props::c09::C09),
         "C10" => f(&props::c10::prop()),
         "C11" => f(&props::c11::prop()),
         "C12" => f(&props::c12::prop()),
+        "C13" => f(&props::c13::C13),
         "C14" => f(&props::c14::prop()),
         "C15" => f(&props::c15::prop()),
         "C16" => f(&props::c16::prop()),
